@@ -56,3 +56,10 @@ KWONLY = {"sk": {"k", "j"}}
 REQUIRED = {"s0": [], "s1": ["a"], "s2": ["a", "b"], "s3": ["a", "b", "c"], "s3d": ["a"], "sk": ["a", "k"],
             "s4": ["x", "y", "z", "w"]}
 DEFAULTS = {"s3d": {"b": 5, "c": None}, "sk": {"j": 2}}
+
+
+@memento_function(cluster=CL, version="1")
+def tv(a, b=0):
+    """a result that shows which value (and of which type) the body received"""
+    _got("tv", locals())
+    return "%s:%r|%s:%r" % (type(a).__name__, a, type(b).__name__, b)
